@@ -432,6 +432,101 @@ def run(ctx):
         except Exception as ex:
             ctx.violation("gbasis of a vector wrapper raised " + exc_kind(ex), {"element": name, "err": repr(ex)},
                           {"what": "raise-gbasis", "element": name})
+    # ---- normal-derivative DOFs (u_n) of the globally defined plate elements on BOUNDARY facets: the derivative
+    # of the associated basis function along the OUTWARD normal at the facet midpoint is +1 (cells with one, two
+    # or three boundary facets; any numbering)
+    import skfem as _sk
+    from skfem import FacetBasis as _FB, Basis as _B
+    for it in range(ctx.scale(10, 80)):
+        if ctx.time_left(0.99) < 0:
+            break
+        ecls = rng.choice([_sk.ElementTriMorley, _sk.ElementTriArgyris, _sk.ElementTri15ParamPlate])
+        r = rng.random()
+        if r < 0.25:
+            mg, infog = _sk.MeshTri1(), {"gen": "MeshTri()"}
+        elif r < 0.4:
+            mg, infog = _sk.MeshTri1.init_refdom(), {"gen": "single cell"}
+        else:
+            mg, infog = meshes.gen_first_order(rng, "tri")
+        if mg.nelements > 30:
+            continue
+        try:
+            e = ecls()
+            row = [k for k, nm in enumerate(e.dofnames[e.nodal_dofs:e.nodal_dofs + e.facet_dofs]) if nm == "u_n"]
+            if not row:
+                continue
+            bg = _B(mg, e)
+            fbg = _FB(mg, e, quadrature=(np.array([[0.5]]), np.array([1.0])))
+            ctx.case({"element": ecls.__name__, "t": mg.t.tolist(), "p": mg.p.tolist(), "kind": "u_n-outward"},
+                     nontrivial=True)
+            ctx.count("normal-derivative-dofs-on-boundary")
+            for q, f in enumerate(fbg.find):
+                k = int(fbg.tind[q])
+                dof = int(bg.facet_dofs[row[0], f])
+                j = list(bg.element_dofs[:, k]).index(dof)
+                g = float((np.asarray(fbg.basis[j][0].grad)[:, q, 0] * np.asarray(fbg.normals)[:, q, 0]).sum())
+                if abs(g - 1.0) > 1e-3:      # (a flipped normal gives -1; the power basis costs several digits)
+                    ctx.violation("the basis function of a normal-derivative DOF on a boundary facet does not have "
+                                  "outward normal derivative +1 at the facet midpoint",
+                                  {"element": ecls.__name__, "mesh": meshes.mesh_descr(mg), "facet": int(f), "cell": k,
+                                   "outward_normal_derivative": g},
+                                  {"what": "global-dual-normal", "element": ecls.__name__})
+                    break
+        except Exception as ex:
+            ctx.violation("normal-derivative duality check raised " + exc_kind(ex),
+                          {"element": ecls.__name__, "err": repr(ex)}, {"what": "raise-gbasis", "element": ecls.__name__})
+    # ---- composites of nodal elements: local function i of component c takes the value 1 at ITS location in the
+    # composite's location table and 0 at the locations of the other functions of that component
+    import json as _json
+    from pathlib import Path as _Path
+    _exp = _json.loads((_Path(__file__).resolve().parents[1] / "gens" / "shape_expect.json").read_text())
+    _dual = {k for k, v in _exp.items() if isinstance(v, dict) and v.get("dual")}
+    for it in range(ctx.scale(24, 200)):
+        if ctx.time_left(0.99) < 0:
+            break
+        kind = rng.choice(["tet", "hex", "tet", "hex", "tri", "quad"])
+        cands = [(n, f) for (n, f) in elements.pool()[kind] if n in _dual and not n.endswith("0")]
+        if len(cands) < 2:
+            continue
+        (n1, f1), (n2, f2) = rng.sample(cands, 2)
+        name = f"ElementComposite({n1},{n2})"
+        try:
+            ec = ElementComposite(f1(), f2())
+            locs = np.asarray(ec.doflocs, dtype=float)
+            if np.isnan(locs).any():
+                continue
+            mref = meshes.CLS[kind].init_refdom()
+            mp = mref.mapping()
+            X = locs.T.copy()
+            nb = locs.shape[0]
+            comp_of, vals = [], []
+            for i in range(nb):
+                flds = ec.gbasis(mp, X, i)
+                v = [np.asarray(f.value)[0] for f in flds]
+                act = [c for c, a in enumerate(v) if np.abs(a).max() > 1e-12]
+                comp_of.append(act[0] if len(act) == 1 else None)
+                vals.append(v)
+            ctx.case({"element": name, "kind": kind}, nontrivial=True)
+            ctx.count("composite-nodal-duality")
+            badi = None
+            for i in range(nb):
+                c = comp_of[i]
+                if c is None:
+                    badi = (i, "not exactly one component is active")
+                    break
+                for j in range(nb):
+                    if comp_of[j] == c and abs(vals[i][c][j] - (1.0 if i == j else 0.0)) > 1e-9:
+                        badi = (i, f"value {float(vals[i][c][j]):.3g} at the location of function {j}")
+                        break
+                if badi:
+                    break
+            if badi:
+                ctx.violation("the location table of a composite of nodal elements is not in the order of its basis "
+                              "functions", {"element": name, "basis_function": badi[0], "detail": badi[1]},
+                              {"what": "composite-duality", "kind": kind})
+        except Exception as ex:
+            ctx.violation("composite duality check raised " + exc_kind(ex), {"element": name, "err": repr(ex)},
+                          {"what": "raise-gbasis", "element": name})
     # ---- points stored as INTEGERS (vertex / lumping rules written with integer literals): same values and
     # derivatives as with the same points stored as floats, also for a float call on the same object afterwards
     import skfem
